@@ -176,22 +176,35 @@ pub fn argv_with_bin(d: &Value, argv: &Value) -> Vec<Vec<u8>> {
 
 /// gate: which definitions does the real validity gate accept
 pub fn gate(defs: &str, out: &str) {
-    let d = load_defs(defs);
+    // each definition is built on its own thread: a build that does not return within 20 s is reported as hung
+    // (the thread is abandoned; the process exits explicitly at the end)
+    let recs = read_ndjson(defs);
     let mut w = NdWriter::create(out);
     let mut rej = 0;
-    for (r, c) in d.recs.iter().zip(d.cmds.iter()) {
-        match c {
-            Ok(_) => w.put(r),
-            Err(m) => {
+    let mut hung: Vec<Value> = vec![];
+    for r in &recs {
+        let (tx, rx) = std::sync::mpsc::channel();
+        let rc = r.clone();
+        std::thread::spawn(move || {
+            quiet_panics();
+            let _ = tx.send(build_def(&rc));
+        });
+        match rx.recv_timeout(std::time::Duration::from_secs(20)) {
+            Ok(Ok(_)) => w.put(r),
+            Ok(Err(m)) => {
                 rej += 1;
                 if rej <= 5 {
                     eprintln!("gate rejects {}: {}", r["label"], m.lines().next().unwrap_or(""));
                 }
             }
+            Err(_) => hung.push(r["label"].clone()),
         }
     }
     w.finish();
-    println!("{{\"accepted\": {}, \"rejected\": {}}}", d.recs.len() - rej, rej);
+    println!("{}", json!({"accepted": recs.len() - rej - hung.len(), "rejected": rej, "hung": hung}));
+    use std::io::Write as _;
+    let _ = std::io::stdout().flush();
+    std::process::exit(0);
 }
 
 /// spec -> impl: replay TLC-emitted (d, argv, obs) records; divergent ones go to `div` as trace lines
